@@ -2279,22 +2279,39 @@ def own9(units, R):
     n = 0
 
     def flag_masks(e):
-        """(bits surely cleared, bits surely set) by the constant masks applied in e (X & ~F, X | F)"""
-        clr, st = 0, 0
-        e = strip_casts(e)
-        if e.get('k') == 'bin' and e['op'] == '&':
-            for (a, b) in ((e['l'], e['r']), (e['r'], e['l'])):
-                m = const_val(b)
-                if m is not None:
-                    c2, s2 = flag_masks(a)
-                    return (c2 | (~m & 0x300)), (s2 & m)
-        if e.get('k') == 'bin' and e['op'] == '|':
-            for (a, b) in ((e['l'], e['r']), (e['r'], e['l'])):
-                m = const_val(b)
-                if m is not None:
-                    c2, s2 = flag_masks(a)
-                    return (c2 & ~m), (s2 | (m & 0x300))
-        return 0, 0
+        """(bits surely cleared, bits surely set) among the two ownership bits by the value of e, where a read of a node's
+        type word keeps what was there.  Per bit: 'k' kept from the old word, 'c' clear, 's' set, '?' not known."""
+        def bits(e):
+            e = strip_casts(e)
+            v = const_val(e)
+            if v is not None:
+                return tuple('s' if v & m else 'c' for m in (0x100, 0x200))
+            k = e.get('k')
+            if k == 'mem' and e['f'] == 'type':
+                return ('k', 'k')
+            if k == 'bin' and e['op'] in ('&', '|'):
+                x, y = bits(e['l']), bits(e['r'])
+                out = []
+                for p_, q_ in zip(x, y):
+                    if e['op'] == '&':
+                        r_ = 'c' if 'c' in (p_, q_) else ('s' if (p_, q_) == ('s', 's') else ('?' if '?' in (p_, q_) else 'k'))
+                    else:
+                        r_ = 's' if 's' in (p_, q_) else ('c' if (p_, q_) == ('c', 'c') else ('?' if '?' in (p_, q_) else 'k'))
+                    out.append(r_)
+                return tuple(out)
+            if k == 'un' and e['op'] == '~':
+                return tuple({'s': 'c', 'c': 's'}.get(p_, '?') for p_ in bits(e['e']))
+            if k == 'cond':
+                x, y = bits(e['t']), bits(e['e'])
+                return tuple(p_ if p_ == q_ else '?' for p_, q_ in zip(x, y))
+            return ('?', '?')
+        e0 = strip_casts(e)
+        if const_val(e0) is not None or e0.get('k') not in ('bin', 'cond', 'un'):
+            return 0, 0
+        bt = bits(e0)
+        clr = (0x100 if bt[0] == 'c' else 0) | (0x200 if bt[1] == 'c' else 0)
+        st = (0x100 if bt[0] == 's' else 0) | (0x200 if bt[1] == 's' else 0)
+        return clr, st
 
     for fn in u.function_list:
         if fn.body is None:
@@ -2513,3 +2530,110 @@ def own9(units, R):
                  'on a path to line %d %s->%s %s, yet %s is cleared: cJSON_Delete would release memory the node does not own'
                  % (line, X, f_, why, F), key='clear:%s' % expr_str(a)[:50])
     R.floor('OWN9', 'stores that clear an ownership bit', n, 3)
+
+
+# ---- OWN10: nothing is written into memory a node only borrows ------------------------------------------------------------------
+
+def _bit_clear_edge(X, flag, tcache):
+    """predicate over CFG edges: on this edge the ownership bit `flag` of node X is known to be clear"""
+    bit = {'cJSON_IsReference': 256, 'cJSON_StringIsConst': 512}[flag]
+
+    def is_flag_test(x):
+        x = strip_casts(expand_cached(x, tcache))
+        if x.get('k') == 'bin' and x['op'] == '&':
+            for (a, b) in ((x['l'], x['r']), (x['r'], x['l'])):
+                a0 = strip_casts(a)
+                if a0.get('k') == 'mem' and a0['f'] == 'type' and expr_str(strip_casts(a0['b'])) == X and \
+                        (flag in (strip_casts(b).get('m') or []) or (const_val(b) is not None and const_val(b) == bit)):
+                    return True
+        return False
+
+    def clear_edge(nn, l):
+        if nn.kind != 'branch' or l is None or nn.expr is None:
+            return False
+        x = strip_casts(nn.expr)
+        if is_flag_test(x):
+            return l[0] == 'F'
+        if x.get('k') == 'un' and x['op'] == '!' and is_flag_test(strip_casts(x['e'])):
+            return l[0] == 'T'
+        p = cmp_parts(x)
+        if p and is_flag_test(p[0]) and p[2] == 0 and p[1] in ('==', '!='):
+            return (p[1] == '==') == (l[0] == 'T')
+        x = strip_casts(expand_cached(x, tcache))
+        p = cmp_parts(x)
+        if p and p[1] in ('==', '!=') and p[2] is not None and (p[2] & bit) == 0:
+            m0 = strip_casts(p[0])
+            if m0.get('k') == 'bin' and m0['op'] == '&':
+                for (a, b) in ((m0['l'], m0['r']), (m0['r'], m0['l'])):
+                    a0 = strip_casts(a)
+                    mv = const_val(b)
+                    if a0.get('k') == 'mem' and a0['f'] == 'type' and expr_str(strip_casts(a0['b'])) == X and mv is not None and (mv & bit):
+                        return (p[1] == '==') == (l[0] == 'T')
+        return False
+    return clear_edge
+
+
+LIBC_WRITERS = {'strcpy': 0, 'strncpy': 0, 'strcat': 0, 'strncat': 0, 'memcpy': 0, 'memmove': 0, 'memset': 0, 'sprintf': 0, 'snprintf': 0,
+                '__builtin_strcpy': 0, '__builtin_memcpy': 0, '__builtin_memmove': 0, '__builtin___strcpy_chk': 0, '__builtin___memcpy_chk': 0}
+
+
+def own10(units, R, floor=1):
+    """cJSON.c: bytes are written into X->valuestring / X->string of a node the function was handed (strcpy, memcpy, ... with that
+    field as destination, or a store through it) only where the ownership bit that describes the field is known to be clear: a
+    cJSON_IsReference node borrows its text from the caller or from another tree (a string literal, the original of an item
+    reference), a cJSON_StringIsConst key belongs to the caller - overwriting either changes, or faults on, memory the node does
+    not own.  Nodes created in the function itself are exempt."""
+    from .tree import _fresh_sources
+    u = units['cJSON.c']
+    fresh = _fresh_sources(u) | {'cJSON_New_Item'}
+    n = 0
+    for fn in u.function_list:
+        if fn.body is None:
+            continue
+        sites = []
+        for c in fn.calls():
+            cn = callee_name(c)
+            if cn in LIBC_WRITERS and c.get('args'):
+                d = strip_casts(c['args'][LIBC_WRITERS[cn]])
+                while d.get('k') == 'bin' and d['op'] in ('+', '-'):
+                    d = strip_casts(d['l'])
+                if d.get('k') == 'mem' and d.get('arrow') and d['f'] in ('valuestring', 'string'):
+                    sites.append((c, d))
+        for a in assignments(fn):
+            l = strip_casts(a['l'])
+            b = None
+            if l.get('k') == 'idx':
+                b = strip_casts(l['b'])
+            elif l.get('k') == 'un' and l['op'] == '*':
+                b = strip_casts(l['e'])
+                while b.get('k') == 'bin' and b['op'] in ('+', '-'):
+                    b = strip_casts(b['l'])
+            if b is not None and b.get('k') == 'mem' and b.get('arrow') and b['f'] in ('valuestring', 'string'):
+                sites.append((a, b))
+        if not sites:
+            continue
+        cfg = fn.cfg()
+        tcache = field_cache(u, fn, 'type')
+        newly = set()
+        for d_ in fn.locals():
+            srcs = [d_['init']] if 'init' in d_ else []
+            srcs += [a_['r'] for a_ in assignments(fn) if is_ref(a_['l']) and strip_casts(a_['l'])['d'] == d_['d'] and a_['op'] == '=']
+            calls_ = [strip_casts(x) for x in srcs if not is_null_const(x) and not strip_casts(x).get('null')]
+            if calls_ and all(x.get('k') == 'call' and callee_name(x) in fresh for x in calls_):
+                newly.add(d_['d'])
+        for (site, m) in sites:
+            base = strip_casts(m['b'])
+            if 'cJSON' not in u.ty(base.get('ty0', base['ty']))['s']:
+                continue
+            if base.get('k') == 'ref' and base.get('d') in newly:
+                continue
+            n += 1
+            X = expr_str(base)
+            flag = FLAG_FOR_FIELD[m['f']]
+            node = node_containing(cfg, site)
+            ok = guarded_by(cfg, node.id, _bit_clear_edge(X, flag, tcache))
+            R.ob('OWN10', fn, site, 'bytes are written into %s only while %s is clear' % (expr_str(m), flag), ok,
+                 'reachable only through the clear edge of a test of %s->type & %s' % (X, flag) if ok else
+                 'reachable with the bit set: the node only borrows that memory (a string literal behind cJSON_CreateStringReference, '
+                 'the text of another tree), and it is overwritten in place', key='write:%s' % expr_str(m))
+    R.floor('OWN10', 'writes into text a node may only borrow', n, floor)
